@@ -287,7 +287,21 @@ class CtxRecorder:
             it, key = lat.downset_union(self.arg(seeds)), 'dindex'
         # a traversal can never yield more members than the lattice has; cut runaway generators short
         # (the repeats in the kept prefix already falsify the clause)
-        res = list(itertools.islice(it, 2 * len(ms) + 8))
+        if self._kind % 4 == 2 and len(ms) > 2:
+            # a consumer that interleaves: while this traversal is suspended after each member, other traversals of
+            # the same lattice (from that member, both directions, and a union) run to completion
+            res = []
+            for c in itertools.islice(it, 2 * len(ms) + 8):
+                res.append(c)
+                if len(res) <= 6:
+                    for _x in c.upset():
+                        pass
+                    for _x in itertools.islice(c.downset(), 3):
+                        pass
+                    for _x in lat.upset_union([c, ms[len(ms) // 2]]):
+                        pass
+        else:
+            res = list(itertools.islice(it, 2 * len(ms) + 8))
         self.ev(name, seeds=[self.ext(c) for c in seeds], res=[self.ext(c) for c in res],
                 rank=[getattr(c, key) for c in res])
 
@@ -400,6 +414,10 @@ class CtxRecorder:
         cbo, cbp = mk('O', self.opos), mk('P', self.ppos)
         if mode == 'callbacks':
             dot = lat.graphviz(make_object_label=cbo, make_property_label=cbp)
+        elif mode == 'only-object-callback':
+            dot = lat.graphviz(make_object_label=cbo)
+        elif mode == 'only-property-callback':
+            dot = lat.graphviz(make_property_label=cbp)
         elif mode == 'again-after-edit':
             # the returned Digraph is the caller's to change; a later call must draw the lattice afresh
             first = lat.graphviz(make_object_label=cbo, make_property_label=cbp)
@@ -435,7 +453,9 @@ class CtxRecorder:
                 if t == h and ('headlabel' in a) != ('taillabel' in a):
                     which, pos = ('headlabel', self.opos) if 'headlabel' in a else ('taillabel', self.ppos)
                     text = a[which]
-                    if mode != 'default':
+                    by_callback = mode not in ('default', 'only-property-callback' if which == 'headlabel'
+                                               else 'only-object-callback')
+                    if by_callback:
                         rec = [num(t), calls.get(text, [-1]), text, text if text in calls else '?']
                     else:
                         names = text.split(' ')
@@ -574,6 +594,7 @@ class CtxRecorder:
         d = self.ctx.definition()
         params = {}
         omap, pmap = dict(self.opos), dict(self.ppos)
+        relabel = {}
         if kind == 'perm':
             ol, pl = list(self.olabels), list(self.plabels)
             if perm is None:
@@ -582,8 +603,31 @@ class CtxRecorder:
             else:
                 ol = [ol[k] for k in perm[0]]
                 pl = [pl[k] for k in perm[1]]
-            d2 = d.take(objects=ol, properties=pl, reorder=True)
-            params = {'pi': [self.opos[x] for x in ol], 'rho': [self.ppos[x] for x in pl]}
+            self._kind += 1
+            if self._kind % 2:
+                d2 = d.take(objects=ol, properties=pl, reorder=True)
+            else:
+                # the same rearrangement the way a user edits a definition: move_* into place, then exchange the
+                # labels of two rows and of two columns through a temporary name (the old label comes back)
+                d2 = d.copy()
+                for k, x in enumerate(ol):
+                    d2.move_object(x, k)
+                for k, x in enumerate(pl):
+                    d2.move_property(x, k)
+                if n >= 2:
+                    a, b2 = ol[0], ol[-1]
+                    d2.rename_object(a, 'TMPNAME')
+                    d2.rename_object(b2, a)
+                    d2.rename_object('TMPNAME', b2)
+                    omap[a], omap[b2] = omap[b2], omap[a]
+                if m >= 2:
+                    a, b2 = pl[0], pl[-1]
+                    d2.rename_property(a, 'TMPNAME')
+                    d2.rename_property(b2, a)
+                    d2.rename_property('TMPNAME', b2)
+                    pmap[a], pmap[b2] = pmap[b2], pmap[a]
+                    relabel[a], relabel[b2] = b2, a
+            params = {'pi': [omap[x] for x in d2.objects], 'rho': [pmap[x] for x in d2.properties]}
         elif kind == 'transpose':
             d2 = d.transposed()
             omap, pmap = dict(self.ppos), dict(self.opos)
@@ -614,7 +658,8 @@ class CtxRecorder:
 
         def pairs2(L, ms):
             if kind == 'perm':
-                return [(L(ms1[a].intent), L(ms1[b].intent)) for a, b in idx]
+                return [(L(tuple(relabel.get(x, x) for x in ms1[a].intent)),
+                         L(tuple(relabel.get(x, x) for x in ms1[b].intent))) for a, b in idx]
             if kind == 'transpose':     # the dual concept has the old extent as its intent
                 return [(L(ms1[a].extent), L(ms1[b].extent)) for a, b in idx]
             return []
@@ -922,5 +967,6 @@ def drive(rec, table, b, families, rng, exhaustive_queries, nsub=10, nmulti=12, 
     if 'C20' in families:
         T(rec.graphviz, 'callbacks')
         T(rec.graphviz, 'default')
+        T(rec.graphviz, 'only-object-callback' if b % 2 else 'only-property-callback')
         T(rec.graphviz, 'again-after-edit')
         T(rec.graphviz, 'default')
